@@ -43,6 +43,7 @@ def plan(tier, seed):
     per = 56 if tier == "quick" else 500
     specs = [{"name": "s%02d" % i, "shard": i, "instances": per, "timeout": 7000} for i in range(n)]
     specs += [{"name": "step%d" % i, "kind": "samplestep", "shard": 50 + i, "instances": 6 if tier == "quick" else 40, "timeout": 7000} for i in range(4)]
+    specs += [{"name": "prog%d" % i, "kind": "prog", "shard": 70 + i, "instances": 30 if tier == "quick" else 200, "timeout": 7000} for i in range(4)]
     return specs
 
 
@@ -50,7 +51,9 @@ def required(tier):
     return {"gibbs_vectors": 2000, "mh_vectors": 2000, "mh_db_edges": 3000, "swap_pairs_checked": 1000, "swap_m1_checked": 100,
             "gibbs_unbalanced": 200, "gibbs_with_children": 300, "gibbs_with_parents": 300, "vectors_lambda": 100,
             "swap_unequal_reads": 100, "vectors_error_zero": 100, "scenarios_seen": 12, "gibbs_hexaploid": 100,
-            "sample_step_kernels_checked": 20, "sample_step_paths_enumerated": 1000}
+            "sample_step_kernels_checked": 20, "sample_step_paths_enumerated": 1000,
+            "prog_sampler_calls_checked": 150, "prog_pedigrees_with_per_gamete_files": 50, "prog_pedigrees_order_differs_from_file": 50,
+            "prog_incongruence_calls_checked": 100, "prog_pedigrees_with_sample_without_bam": 8}
 
 
 class NpProxy:
@@ -369,7 +372,180 @@ def run_samplestep(tier, seed, spec, col):
                               % ("Gibbs" if step_type == 0 else "MH", t, I["name"], res), rep)
 
 
+# ---------------------------------------------------------------------------
+# prog: the pedigree handed to the sampler by `mchap call-pedigree` is the one the user's files describe
+
+
+def run_prog(tier, seed, spec, col):
+    """In-process call-pedigree on generated BAMs with --sample-parents / --gamete-ploidy / --gamete-ibd / --gamete-error
+    files (lines in shuffled order, per-gamete values all different, sometimes a parent without BAM).  The sampler and
+    the PEDERR computation are wrapped where the program calls them and the arrays they receive are compared with
+    arrays rebuilt from the files: the joint posterior whose kernels the other kinds verify is the user's pedigree."""
+    import os
+    import shutil
+    import warnings
+
+    from mchap.application.call_pedigree import program as P
+    from mchap.pedigree import classes as pclasses
+
+    from vlib import cli, datasets, env, hapvcf
+
+    for inst in range(spec["instances"]):
+        rng = gen.rng_for(seed, ID, spec["shard"], inst)
+        while True:
+            ploidies, parents, tau = pedgen.random_shape(rng)
+            if max(ploidies) <= 4 and len(ploidies) <= 5 and min(min(t) for t in tau) >= 1:
+                break
+        n = len(ploidies)
+        founders_with_children = [i for i in range(n) if parents[i] == (-1, -1) and any(i in parents[k] for k in range(n))]
+        dummy = int(rng.choice(founders_with_children)) if founders_with_children and rng.random() < 0.35 else None
+        with_bam = [i for i in range(n) if i != dummy]
+        order = [with_bam[int(k)] for k in rng.permutation(len(with_bam))]  # BAM / program order
+        name = {idx: "S%d" % (k + 1) for k, idx in enumerate(order)}
+        if dummy is not None:
+            name[dummy] = "D1"
+        root = env.workdir("c18-%s-%d" % (spec["name"], inst))
+        shutil.rmtree(root, ignore_errors=True)
+        ds = datasets.make_dataset(rng, root, n_samples=len(order), n_loci=2, ploidy=[2], depth=(1, 9), contig_len=400, snv_range=(1, 3), hostile=0.0)
+        recs = []
+        for L in ds.loci:
+            ref = ds.contigs[L["contig"]][L["start"]:L["stop"]]
+            alts = []
+            for smp in ds.samples:
+                for hap in ds.genotypes[(smp, L["name"])]:
+                    sq = datasets.hap_sequence(ds.contigs, L, hap, L["start"], L["stop"])
+                    if sq != ref and sq not in alts:
+                        alts.append(sq)
+            recs.append({"contig": L["contig"], "pos0": L["start"], "id": L["name"], "ref": ref, "alts": alts[:3]})
+        recs.sort(key=lambda r: (r["contig"], r["pos0"]))
+        hv = hapvcf.write(os.path.join(root, "haps.vcf"), hapvcf.render(ds.contigs, recs))
+        lam = {(i, j): (float(rng.choice([0.05, 0.1, 0.25])) + 0.001 * (2 * i + j) if tau[i][j] == 2 and parents[i][j] >= 0 and ploidies[parents[i][j]] >= 4 and rng.random() < 0.6 else 0.0)
+               for i in range(n) for j in range(2)}
+        err = {(i, j): round(0.02 + 0.013 * (2 * i + j) + float(rng.choice([0.0, 0.2])), 4) for i in range(n) for j in range(2)}
+        balanced = all(tau[i][0] == tau[i][1] for i in range(n))
+        use_tau_file = (not balanced) or rng.random() < 0.5
+        use_lam_file = any(v > 0 for v in lam.values()) or rng.random() < 0.3
+        use_err_file = rng.random() < 0.75
+        if not use_err_file:
+            e0 = float(rng.choice([0.01, 0.1, 0.5]))
+            err = {k: e0 for k in err}
+
+        def write_lines(fname, rows):
+            rows = [rows[int(k)] for k in rng.permutation(len(rows))]
+            path = os.path.join(root, fname)
+            with open(path, "w") as fh:
+                for r in rows:
+                    fh.write("\t".join(str(x) for x in r) + "\n")
+            return path
+
+        pn = lambda k: "." if k < 0 else name[k]  # noqa: E731
+        f_par = write_lines("parents.txt", [(name[i], pn(parents[i][0]), pn(parents[i][1])) for i in range(n)])
+        f_pl = write_lines("ploidy.txt", [(name[i], ploidies[i]) for i in range(n)])
+        argv = ["call-pedigree", "--haplotypes", hv, "--bam"] + ds.bams + ["--ploidy", f_pl, "--sample-parents", f_par,
+                "--mcmc-steps", "40", "--mcmc-burn", "20", "--mcmc-seed", str(inst % 3), "--mcmc-chains", str(1 + inst % 2)]
+        if use_tau_file:
+            argv += ["--gamete-ploidy", write_lines("tau.txt", [(name[i], tau[i][0], tau[i][1]) for i in range(n)])]
+        if use_lam_file:
+            argv += ["--gamete-ibd", write_lines("lambda.txt", [(name[i], repr(lam[(i, 0)]), repr(lam[(i, 1)])) for i in range(n)])]
+        argv += ["--gamete-error", write_lines("error.txt", [(name[i], repr(err[(i, 0)]), repr(err[(i, 1)])) for i in range(n)]) if use_err_file else repr(e0)]
+        case = {"kind": "prog", "seed": seed, "shard": spec["shard"], "instance": inst, "names": [name[i] for i in range(n)], "ploidy": ploidies,
+                "parents": [list(x) for x in parents], "tau": [list(x) for x in tau], "argv": argv[1:]}
+        col.case(case, nontrivial=True)
+        calls, inc_calls = [], []
+        real_sampler, real_inc = pclasses.mcmc_sampler, pclasses._trace_incongruence
+
+        def spy_sampler(*a, **kw):
+            calls.append({k: np.array(v, copy=True) for k, v in kw.items() if k in ("sample_ploidy", "sample_parents", "gamete_tau", "gamete_lambda", "gamete_error", "sample_read_dists", "sample_read_counts")})
+            calls[-1]["positional"] = len(a)
+            return real_sampler(*a, **kw)
+
+        def spy_inc(trace, sample_ploidy, sample_parents, gamete_tau, gamete_lambda):
+            inc_calls.append({"sample_ploidy": np.array(sample_ploidy), "sample_parents": np.array(sample_parents), "gamete_tau": np.array(gamete_tau), "gamete_lambda": np.array(gamete_lambda)})
+            return real_inc(trace, sample_ploidy, sample_parents, gamete_tau, gamete_lambda)
+
+        datas = []
+        try:
+            with warnings.catch_warnings():
+                warnings.simplefilter("error", RuntimeWarning)
+                with monitors.patched((pclasses, "mcmc_sampler", spy_sampler), (pclasses, "_trace_incongruence", spy_inc)):
+                    po = P.cli(["mchap"] + argv)
+                    seen_data = []
+                    real_csg = po.call_sample_genotypes
+
+                    def spy_csg(data):
+                        seen_data.append(data)
+                        return real_csg(data)
+
+                    po.call_sample_genotypes = spy_csg
+                    for locus in po.loci():
+                        before = len(calls)
+                        po.call_locus(locus, po.sample_bams)
+                        datas.append((seen_data[-1], before, len(calls)))
+        except Exception as ex:  # noqa: BLE001  (C18 is not about which inputs the program accepts)
+            col.count("prog_runs_raised")
+            col.add_to_set("prog_exceptions", "%s: %s" % (type(ex).__name__, str(ex)[:120]))
+            cli.relax_warnings()
+            shutil.rmtree(root, ignore_errors=True)
+            continue
+        cli.relax_warnings()
+        col.count("prog_pedigrees_run")
+        if use_tau_file or use_lam_file or use_err_file:
+            col.count("prog_pedigrees_with_per_gamete_files")
+        if dummy is not None:
+            col.count("prog_pedigrees_with_sample_without_bam")
+        by_name = {name[i]: i for i in range(n)}
+        for d, lo, hi in datas:
+            S = list(d.samples)
+            if sorted(S) != sorted(by_name):
+                col.violation("program-pedigree-differs-from-files", "call-pedigree works on samples %s, the input files name %s" % (S, sorted(by_name)), case)
+                break
+            if S != [name[i] for i in range(n)]:
+                col.count("prog_pedigrees_order_differs_from_file")
+            idx = [by_name[x] for x in S]
+            pos = {x: k for k, x in enumerate(S)}
+            want = {
+                "sample_ploidy": np.array([ploidies[i] for i in idx]),
+                "sample_parents": np.array([[pos[name[p]] if p >= 0 else -1 for p in parents[i]] for i in idx]),
+                "gamete_tau": np.array([list(tau[i]) for i in idx]),
+                "gamete_lambda": np.array([[lam[(i, 0)], lam[(i, 1)]] for i in idx]),
+                "gamete_error": np.array([[err[(i, 0)], err[(i, 1)]] for i in idx]),
+            }
+            bad = None
+            if hi == lo:
+                col.count("prog_loci_without_sampler_call")
+            for c in calls[lo:hi]:
+                col.count("prog_sampler_calls_checked")
+                if c["positional"]:
+                    col.inconclusive_note("mcmc_sampler was called with positional arguments; the spy reads keywords only")
+                    continue
+                for k, w in want.items():
+                    g = c.get(k)
+                    if g is None or g.shape != w.shape or not np.allclose(g, w, rtol=0, atol=1e-12):
+                        bad = bad or "%s given to the sampler is %s, the files say %s (sample order %s)" % (k, None if g is None else g.tolist(), w.tolist(), S)
+                # reads: row i must be sample i's own de-duplicated reads, padded with zero counts
+                g_r, g_c = c.get("sample_read_dists"), c.get("sample_read_counts")
+                for k2, smp in enumerate(S):
+                    rd, rc = np.asarray(d.read_dists[smp]), np.asarray(d.read_counts[smp])
+                    m = len(rc)
+                    if g_c is None or g_r is None or not (np.array_equal(g_c[k2, :m], rc) and np.all(g_c[k2, m:] == 0) and np.array_equal(g_r[k2, :m], rd, equal_nan=True)):
+                        bad = bad or "row %d of the reads given to the sampler is not sample %s's own reads" % (k2, smp)
+                        break
+            for c in inc_calls[-(1 if hi > lo else 0):] if hi > lo else []:
+                col.count("prog_incongruence_calls_checked")
+                for k in ("sample_ploidy", "sample_parents", "gamete_tau", "gamete_lambda"):
+                    if c[k].shape != want[k].shape or not np.allclose(c[k], want[k], rtol=0, atol=1e-12):
+                        bad = bad or "%s given to the PEDERR computation is %s, the files say %s" % (k, c[k].tolist(), want[k].tolist())
+            if bad:
+                col.violation("program-pedigree-differs-from-files", "call-pedigree locus %s: %s" % (d.locus.name, bad), case)
+                break
+        if inst == 0 and spec["shard"] == 70:
+            col.sample({"prog": {"argv": argv[1:6] + ["..."], "samples": [name[i] for i in range(n)], "parents": [list(x) for x in parents], "tau": [list(x) for x in tau]}})
+        shutil.rmtree(root, ignore_errors=True)
+
+
 def run_shard(tier, seed, spec, col):
+    if spec.get("kind") == "prog":
+        return run_prog(tier, seed, spec, col)
     if spec.get("kind") == "samplestep":
         return run_samplestep(tier, seed, spec, col)
     names = sorted(pedgen.SCENARIOS)
